@@ -306,4 +306,423 @@ theorem vermKk_spec (e2 p q : ℝ) (he : e2 ≠ 0) (hp : 0 ≤ p) (hq : 0 ≤ q)
     refine ⟨by linarith, ?_⟩
     rw [sub_add_cancel, Real.sq_sqrt hppos.le, zero_div, add_zero, div_self hppos.ne']
 
+/-! ## The meridian-plane relations every branch of `IntReverse` has to establish -/
+
+/-- `Geocentric::IntForward` over ℝ -/
+theorem forward_real (a f s c sl cl h : ℝ) :
+    forward (⟨a, f⟩ : Ell ℝ) s c sl cl h =
+      ((a / Real.sqrt (1 - f * (2 - f) * s ^ 2) + h) * c * cl,
+       (a / Real.sqrt (1 - f * (2 - f) * s ^ 2) + h) * c * sl,
+       ((1 - f) ^ 2 * (a / Real.sqrt (1 - f * (2 - f) * s ^ 2)) + h) * s) := by
+  simp only [forward, e2, e2m, lit_real, sq_real, sqrt_real]
+  push_cast
+  rfl
+
+/-- what a branch of the reverse conversion establishes in the meridian half-plane `(R, Z)`, `R ≥ 0`:
+`(s, c)` is a unit vector with `c ≥ 0`, the forward image of `(s, c, h)` is `(R, Z)`, and the point lies on the same
+side of the axis and of the equatorial plane as its foot point (`N + h ≥ 0`, `(1 − e²)N + h ≥ 0`, `N` the prime-vertical
+radius of curvature) -/
+structure Merid (a f s c h R Z : ℝ) : Prop where
+  unit : s ^ 2 + c ^ 2 = 1
+  cpos : 0 ≤ c
+  clR : (a / Real.sqrt (1 - f * (2 - f) * s ^ 2) + h) * c = R
+  clZ : ((1 - f) ^ 2 * (a / Real.sqrt (1 - f * (2 - f) * s ^ 2)) + h) * s = Z
+  sideR : 0 ≤ a / Real.sqrt (1 - f * (2 - f) * s ^ 2) + h
+  sideZ : 0 ≤ (1 - f) ^ 2 * (a / Real.sqrt (1 - f * (2 - f) * s ^ 2)) + h
+
+/-- the longitude part of `IntReverse` -/
+theorem lon_part (X Y : ℝ) :
+    let R := Real.sqrt (X ^ 2 + Y ^ 2)
+    let slam := if R = 0 then 0 else Y / R
+    let clam := if R = 0 then 1 else X / R
+    slam ^ 2 + clam ^ 2 = 1 ∧ R * clam = X ∧ R * slam = Y := by
+  intro R slam clam
+  have hR2 : R ^ 2 = X ^ 2 + Y ^ 2 := Real.sq_sqrt (by positivity)
+  by_cases hR : R = 0
+  · have h0 : X ^ 2 + Y ^ 2 = 0 := by rw [← hR2, hR]; ring
+    have hX : X = 0 := by nlinarith [sq_nonneg X, sq_nonneg Y]
+    have hY : Y = 0 := by nlinarith [sq_nonneg X, sq_nonneg Y]
+    simp only [slam, clam, if_pos hR, hR, hX, hY]
+    norm_num
+  · simp only [slam, clam, if_neg hR]
+    refine ⟨?_, ?_, ?_⟩
+    · field_simp; linarith
+    · field_simp
+    · field_simp
+
+/-- general branch: from a positive solution `(k1, k2 = k1 + e²)` of Vermeille's quartic -/
+theorem merid_general (a f R Z k1 k2 : ℝ) (ha : 0 < a) (hR : 0 ≤ R) (hk1 : 0 < k1) (hk2 : 0 < k2)
+    (hk : k2 = k1 + f * (2 - f))
+    (hq : (R / a) ^ 2 / k2 ^ 2 + (1 - f) ^ 2 * (Z / a) ^ 2 / k1 ^ 2 = 1) (hpos : R ≠ 0 ∨ Z ≠ 0) :
+    Merid a f ((Z / k1) / Real.sqrt ((Z / k1) ^ 2 + (R / k2) ^ 2)) ((R / k2) / Real.sqrt ((Z / k1) ^ 2 + (R / k2) ^ 2))
+      ((1 - (1 - f) ^ 2 / k1) * Real.sqrt ((k1 * R / k2) ^ 2 + Z ^ 2)) R Z := by
+  set e2 := f * (2 - f) with he2
+  have he2m : (1 - f) ^ 2 = 1 - e2 := by rw [he2]; ring
+  have hH2pos : 0 < (Z / k1) ^ 2 + (R / k2) ^ 2 := by
+    rcases hpos with h0 | h0
+    · have : 0 < (R / k2) ^ 2 := by positivity
+      positivity
+    · have : 0 < (Z / k1) ^ 2 := by positivity
+      positivity
+  set H := Real.sqrt ((Z / k1) ^ 2 + (R / k2) ^ 2) with hHdef
+  have hHpos : 0 < H := Real.sqrt_pos.mpr hH2pos
+  have hH2 : H ^ 2 = (Z / k1) ^ 2 + (R / k2) ^ 2 := Real.sq_sqrt hH2pos.le
+  have hq' : (R / k2) ^ 2 + (1 - e2) * (Z / k1) ^ 2 = a ^ 2 := by
+    rw [he2m] at hq
+    have := hq; field_simp at this ⊢; linarith
+  have h1 : 1 - e2 * ((Z / k1) / H) ^ 2 = (a / H) ^ 2 := by
+    field_simp
+    have : H ^ 2 - e2 * (Z / k1) ^ 2 = a ^ 2 := by rw [hH2]; linarith
+    field_simp at this; linarith
+  have hn : a / Real.sqrt (1 - e2 * ((Z / k1) / H) ^ 2) = H := by
+    rw [h1, Real.sqrt_sq (by positivity)]; field_simp
+  have h2 : Real.sqrt ((k1 * R / k2) ^ 2 + Z ^ 2) = k1 * H := by
+    have : (k1 * R / k2) ^ 2 + Z ^ 2 = (k1 * H) ^ 2 := by
+      rw [mul_pow, hH2]; field_simp; ring
+    rw [this, Real.sqrt_sq (by positivity)]
+  have hh : (1 - (1 - f) ^ 2 / k1) * Real.sqrt ((k1 * R / k2) ^ 2 + Z ^ 2) = (k1 - (1 - e2)) * H := by
+    rw [h2, he2m]; field_simp
+  refine ⟨?_, by positivity, ?_, ?_, ?_, ?_⟩
+  · rw [div_pow (Z / k1) H, div_pow (R / k2) H, ← add_div, ← hH2, div_self (by positivity)]
+  · rw [hn, hh]
+    have : H + (k1 - (1 - e2)) * H = k2 * H := by rw [hk]; ring
+    rw [this]; field_simp
+  · rw [hn, hh, he2m]
+    have : (1 - e2) * H + (k1 - (1 - e2)) * H = k1 * H := by ring
+    rw [this]; field_simp
+  · rw [hn, hh]
+    have : H + (k1 - (1 - e2)) * H = k2 * H := by rw [hk]; ring
+    rw [this]; positivity
+  · rw [hn, hh, he2m]
+    have : (1 - e2) * H + (k1 - (1 - e2)) * H = k1 * H := by ring
+    rw [this]; positivity
+
+/-- sphere branch (`f = 0`), the centre included (it is sent to the north pole at `h = −a`) -/
+theorem merid_sphere (a R Z : ℝ) (hR : 0 ≤ R) :
+    let h0 := Real.sqrt (R ^ 2 + Z ^ 2)
+    let zz := if h0 = 0 then 1 else Z
+    let H := Real.sqrt (zz ^ 2 + R ^ 2)
+    Merid a 0 (zz / H) (R / H) (h0 - a) R Z := by
+  intro h0 zz H
+  have hh2 : h0 ^ 2 = R ^ 2 + Z ^ 2 := Real.sq_sqrt (by positivity)
+  have hh0 : 0 ≤ h0 := Real.sqrt_nonneg _
+  have hn : ∀ s : ℝ, a / Real.sqrt (1 - 0 * (2 - 0) * s ^ 2) = a := by
+    intro s; rw [show 1 - (0:ℝ) * (2 - 0) * s ^ 2 = 1 by ring, Real.sqrt_one, div_one]
+  by_cases hz : h0 = 0
+  · have h0' : R ^ 2 + Z ^ 2 = 0 := by rw [← hh2, hz]; ring
+    have hR0 : R = 0 := by nlinarith [sq_nonneg R, sq_nonneg Z]
+    have hZ0 : Z = 0 := by nlinarith [sq_nonneg R, sq_nonneg Z]
+    have hzz : zz = 1 := by simp only [zz, if_pos hz]
+    have hH : H = 1 := by simp only [H, hzz, hR0]; norm_num
+    rw [hzz, hH, hR0, hZ0, hz]
+    refine ⟨by norm_num, by norm_num, ?_, ?_, ?_, ?_⟩ <;> rw [hn] <;> norm_num
+  · have hzz : zz = Z := by simp only [zz, if_neg hz]
+    have hH : H = h0 := by
+      simp only [H, hzz]
+      rw [show Z ^ 2 + R ^ 2 = R ^ 2 + Z ^ 2 by ring]
+    have hpos : 0 < h0 := lt_of_le_of_ne hh0 (Ne.symm hz)
+    rw [hzz, hH]
+    refine ⟨?_, by positivity, ?_, ?_, ?_, ?_⟩
+    · rw [div_pow, div_pow, ← add_div, hh2, add_comm, div_self (by rw [← hh2]; positivity)]
+    · rw [hn]; field_simp; ring
+    · rw [hn]; field_simp; ring
+    · rw [hn]; linarith
+    · rw [hn]; linarith
+
+/-- inside the singular disc, oblate (`0 < f < 1`, `Z = 0`, `R ≤ a e²`): the limiting formulas give a pre-image -/
+theorem merid_disc_oblate (a f R : ℝ) (ha : 0 < a) (hf0 : 0 < f) (hf : f < 1) (hR : 0 ≤ R)
+    (hp : (R / a) ^ 2 ≤ (f * (2 - f)) ^ 2) :
+    let zz := Real.sqrt (((f * (2 - f)) ^ 2 - (R / a) ^ 2) / (1 - f) ^ 2)
+    let xx := Real.sqrt ((R / a) ^ 2)
+    let H := Real.sqrt (zz ^ 2 + xx ^ 2)
+    Merid a f (zz / H) (xx / H) (-(a * (1 - f) ^ 2 * H / |f * (2 - f)|)) R 0 := by
+  intro zz xx H
+  set e2 := f * (2 - f) with he2
+  have he2pos : 0 < e2 := by rw [he2]; nlinarith
+  have he2m : (1 - f) ^ 2 = 1 - e2 := by rw [he2]; ring
+  have hmpos : 0 < (1 - f) ^ 2 := pow_pos (by linarith) 2
+  have hzz2 : zz ^ 2 = (e2 ^ 2 - (R / a) ^ 2) / (1 - f) ^ 2 :=
+    Real.sq_sqrt (div_nonneg (by linarith) hmpos.le)
+  have hxx : xx = R / a := Real.sqrt_sq (by positivity)
+  have hH2 : H ^ 2 = zz ^ 2 + xx ^ 2 := Real.sq_sqrt (by positivity)
+  have hH2pos : 0 < zz ^ 2 + xx ^ 2 := by
+    rw [hzz2, hxx]
+    by_cases h0 : R = 0
+    · rw [h0]; simp only [zero_div, ne_eq, OfNat.ofNat_ne_zero, not_false_eq_true, zero_pow, sub_zero, add_zero]; positivity
+    · have : 0 < (R / a) ^ 2 := by positivity
+      have : 0 ≤ (e2 ^ 2 - (R / a) ^ 2) / (1 - f) ^ 2 := div_nonneg (by linarith) hmpos.le
+      linarith
+  have hHpos : 0 < H := Real.sqrt_pos.mpr hH2pos
+  -- 1 − e² sin²φ = e⁴/H²
+  have h1 : 1 - e2 * (zz / H) ^ 2 = (e2 / H) ^ 2 := by
+    rw [div_pow, div_pow, hH2]
+    have hne : zz ^ 2 + xx ^ 2 ≠ 0 := hH2pos.ne'
+    field_simp
+    rw [hzz2, hxx, he2m]
+    have h1e : (1 - e2) ≠ 0 := by rw [← he2m]; exact hmpos.ne'
+    field_simp; ring
+  have hn : a / Real.sqrt (1 - e2 * (zz / H) ^ 2) = a * H / e2 := by
+    rw [h1, Real.sqrt_sq (by positivity)]; field_simp
+  rw [abs_of_pos he2pos]
+  have hsum : a * H / e2 + -(a * (1 - f) ^ 2 * H / e2) = a * H := by rw [he2m]; field_simp; ring
+  have hsumZ : (1 - f) ^ 2 * (a * H / e2) + -(a * (1 - f) ^ 2 * H / e2) = 0 := by ring
+  refine ⟨?_, by positivity, ?_, ?_, ?_, ?_⟩
+  · rw [div_pow, div_pow, ← add_div, ← hH2, div_self (by positivity)]
+  · rw [hn, hsum, hxx]; field_simp
+  · rw [hn, hsumZ, zero_mul]
+  · rw [hn, hsum]; positivity
+  · rw [hn, hsumZ]
+
+/-- inside the singular segment, prolate (`f < 0`, `R = 0`, `|Z| ≤ a|e²|/(1 − f)`): the limiting formulas give a pre-image -/
+theorem merid_segment_prolate (a f Z : ℝ) (ha : 0 < a) (hf0 : f < 0)
+    (hp : (1 - f) ^ 2 * (Z / a) ^ 2 ≤ (f * (2 - f)) ^ 2) :
+    let zz := Real.sqrt ((1 - f) ^ 2 * (Z / a) ^ 2 / (1 - f) ^ 2)
+    let xx := Real.sqrt ((f * (2 - f)) ^ 2 - (1 - f) ^ 2 * (Z / a) ^ 2)
+    let H := Real.sqrt (zz ^ 2 + xx ^ 2)
+    Merid a f (if Z < 0 then -(zz / H) else zz / H) (xx / H) (-(a * 1 * H / |f * (2 - f)|)) 0 Z := by
+  intro zz xx H
+  set e2 := f * (2 - f) with he2
+  have he2neg : e2 < 0 := by rw [he2]; nlinarith
+  have he2m : (1 - f) ^ 2 = 1 - e2 := by rw [he2]; ring
+  have hmpos : 0 < (1 - f) ^ 2 := pow_pos (by linarith) 2
+  have hzz : zz = |Z| / a := by
+    have e : (1 - f) ^ 2 * (Z / a) ^ 2 / (1 - f) ^ 2 = (Z / a) ^ 2 := mul_div_cancel_left₀ _ hmpos.ne'
+    simp only [zz]
+    rw [e, Real.sqrt_sq_eq_abs, abs_div, abs_of_pos ha]
+  have hzz2 : zz ^ 2 = (Z / a) ^ 2 := by rw [hzz, div_pow, sq_abs, div_pow]
+  have hxx2 : xx ^ 2 = e2 ^ 2 - (1 - f) ^ 2 * (Z / a) ^ 2 := Real.sq_sqrt (by linarith)
+  have hH2 : H ^ 2 = zz ^ 2 + xx ^ 2 := Real.sq_sqrt (by positivity)
+  have hH2pos : 0 < zz ^ 2 + xx ^ 2 := by
+    rw [hzz2, hxx2]
+    by_cases h0 : Z = 0
+    · have : 0 < e2 ^ 2 := by nlinarith
+      rw [h0]; simpa using this
+    · have : 0 < (Z / a) ^ 2 := by positivity
+      linarith
+  have hHpos : 0 < H := Real.sqrt_pos.mpr hH2pos
+  have h1' : ∀ s : ℝ, s ^ 2 = (zz / H) ^ 2 → 1 - e2 * s ^ 2 = (e2 / H) ^ 2 := by
+    intro s hs
+    rw [hs, div_pow, div_pow, hH2]
+    have hne : zz ^ 2 + xx ^ 2 ≠ 0 := hH2pos.ne'
+    field_simp
+    rw [hxx2, hzz2, he2m]; ring
+  have hn : ∀ s : ℝ, s ^ 2 = (zz / H) ^ 2 → a / Real.sqrt (1 - e2 * s ^ 2) = a * H / (-e2) := by
+    intro s hs
+    rw [h1' s hs, Real.sqrt_sq_eq_abs, abs_div, abs_of_neg he2neg, abs_of_pos hHpos]; field_simp
+  rw [abs_of_neg he2neg]
+  have hsq : (if Z < 0 then -(zz / H) else zz / H) ^ 2 = (zz / H) ^ 2 := by
+    split_ifs <;> ring
+  have hsum : a * H / (-e2) + -(a * 1 * H / (-e2)) = 0 := by ring
+  have hsumZ : (1 - f) ^ 2 * (a * H / (-e2)) + -(a * 1 * H / (-e2)) = a * H := by
+    have hne : e2 ≠ 0 := he2neg.ne
+    rw [he2m]; field_simp; ring
+  refine ⟨?_, by positivity, ?_, ?_, ?_, ?_⟩
+  · rw [hsq, div_pow, div_pow, ← add_div, ← hH2, div_self (by positivity)]
+  · rw [hn _ hsq, hsum, zero_mul]
+  · rw [hn _ hsq, hsumZ]
+    by_cases hZ : Z < 0
+    · rw [if_pos hZ, hzz, abs_of_neg hZ]; field_simp
+    · rw [if_neg hZ, hzz, abs_of_nonneg (not_lt.mp hZ)]; field_simp
+  · rw [hn _ hsq, hsum]
+  · rw [hn _ hsq, hsumZ]; positivity
+
+/-! ## `reverse` unfolded over ℝ, branch by branch -/
+
+noncomputable def revFar (X Y Z : ℝ) : Rev ℝ :=
+  let R := Real.sqrt ((X / 2) ^ 2 + (Y / 2) ^ 2)
+  let H := Real.sqrt ((Z / 2) ^ 2 + R ^ 2)
+  ⟨Z / 2 / H, R / H, if R = 0 then 0 else Y / 2 / R, if R = 0 then 1 else X / 2 / R, Real.sqrt (Real.sqrt (X ^ 2 + Y ^ 2) ^ 2 + Z ^ 2)⟩
+
+noncomputable def revSphere (a R Z slam clam : ℝ) : Rev ℝ :=
+  let h0 := Real.sqrt (R ^ 2 + Z ^ 2)
+  let zz := if h0 = 0 then 1 else Z
+  let H := Real.sqrt (zz ^ 2 + R ^ 2)
+  ⟨zz / H, R / H, slam, clam, h0 - a⟩
+
+noncomputable def revGeneral (f R Z slam clam : ℝ) (kk : ℝ × ℝ) : Rev ℝ :=
+  let H := Real.sqrt ((Z / kk.1) ^ 2 + (R / kk.2) ^ 2)
+  ⟨Z / kk.1 / H, R / kk.2 / H, slam, clam, (1 - (1 - f) ^ 2 / kk.1) * Real.sqrt ((kk.1 * R / kk.2) ^ 2 + Z ^ 2)⟩
+
+noncomputable def revSing (a f p Z slam clam : ℝ) : Rev ℝ :=
+  let zz := Real.sqrt ((if f < 0 then p else (f * (2 - f)) ^ 2 - p) / (1 - f) ^ 2)
+  let xx := Real.sqrt (if f < 0 then (f * (2 - f)) ^ 2 - p else p)
+  let H := Real.sqrt (zz ^ 2 + xx ^ 2)
+  ⟨if Z < 0 then -(zz / H) else zz / H, xx / H, slam, clam, -(a * (if f < 0 then 1 else (1 - f) ^ 2) * H / |f * (2 - f)|)⟩
+
+theorem cond_iff (A B : Prop) [Decidable A] [Decidable B] : ((!(decide A && decide B)) = true) ↔ ¬(A ∧ B) := by
+  by_cases hA : A <;> by_cases hB : B <;> simp [hA, hB]
+
+/-- the branch structure of `Geocentric::IntReverse` (the model `reverse`) over ℝ -/
+theorem reverse_real (a f maxrad X Y Z : ℝ) :
+    reverse (⟨a, f⟩ : Ell ℝ) maxrad X Y Z =
+      let R := Real.sqrt (X ^ 2 + Y ^ 2)
+      let slam := if R = 0 then 0 else Y / R
+      let clam := if R = 0 then 1 else X / R
+      let p0 := (R / a) ^ 2
+      let q0 := (1 - f) ^ 2 * (Z / a) ^ 2
+      let r := (p0 + q0 - (f * (2 - f)) ^ 2) / 6
+      let p := if f < 0 then q0 else p0
+      let q := if f < 0 then p0 else q0
+      if maxrad < Real.sqrt (R ^ 2 + Z ^ 2) then revFar X Y Z
+      else if (f * (2 - f)) ^ 2 = 0 then revSphere a R Z slam clam
+      else if (!(decide ((f * (2 - f)) ^ 2 * q = 0) && decide (r ≤ 0))) = true then
+        revGeneral f R Z slam clam (vermK ⟨a, f⟩ p q r (decide (f < 0)))
+      else revSing a f p Z slam clam := by
+  unfold reverse
+  simp only [e4a, e2m, e2a, e2, sq_real, sqrt_real, hypot_real, ltb_real, leb_real, eqb_real, lit_real, ofNat_real, abs_real,
+    decide_eq_true_eq]
+  push_cast
+  rfl
+
+/-- **every branch of `IntReverse` below the far-field threshold** establishes the meridian relations `Merid` for
+`(R, Z) = (√(X² + Y²), Z)`, and the longitude pair is `(Y/R, X/R)` (or `(0, 1)` on the axis) -/
+theorem reverse_facts (a f maxrad X Y Z : ℝ) (ha : 0 < a) (hf : f < 1)
+    (hmax : ¬ maxrad < Real.sqrt (Real.sqrt (X ^ 2 + Y ^ 2) ^ 2 + Z ^ 2)) :
+    Merid a f (reverse (⟨a, f⟩ : Ell ℝ) maxrad X Y Z).sphi (reverse (⟨a, f⟩ : Ell ℝ) maxrad X Y Z).cphi
+      (reverse (⟨a, f⟩ : Ell ℝ) maxrad X Y Z).h (Real.sqrt (X ^ 2 + Y ^ 2)) Z ∧
+    (reverse (⟨a, f⟩ : Ell ℝ) maxrad X Y Z).slam = (if Real.sqrt (X ^ 2 + Y ^ 2) = 0 then 0 else Y / Real.sqrt (X ^ 2 + Y ^ 2)) ∧
+    (reverse (⟨a, f⟩ : Ell ℝ) maxrad X Y Z).clam = (if Real.sqrt (X ^ 2 + Y ^ 2) = 0 then 1 else X / Real.sqrt (X ^ 2 + Y ^ 2)) := by
+  rw [reverse_real]
+  simp only []
+  rw [if_neg hmax]
+  set R := Real.sqrt (X ^ 2 + Y ^ 2) with hRdef
+  have hR : 0 ≤ R := Real.sqrt_nonneg _
+  have hmpos : 0 < (1 - f) ^ 2 := pow_pos (by linarith) 2
+  by_cases he : (f * (2 - f)) ^ 2 = 0
+  · rw [if_pos he]
+    have hf0 : f = 0 := by
+      have h := pow_eq_zero_iff (two_ne_zero) |>.mp he
+      rcases mul_eq_zero.mp h with h | h
+      · exact h
+      · exfalso; linarith
+    subst hf0
+    exact ⟨merid_sphere a R Z hR, rfl, rfl⟩
+  · rw [if_neg he]
+    have he2 : f * (2 - f) ≠ 0 := fun h => he (by rw [h]; ring)
+    have he4pos : 0 < (f * (2 - f)) ^ 2 := by positivity
+    set p0 := (R / a) ^ 2 with hp0
+    set q0 := (1 - f) ^ 2 * (Z / a) ^ 2 with hq0
+    have hp0n : 0 ≤ p0 := by rw [hp0]; positivity
+    have hq0n : 0 ≤ q0 := by rw [hq0]; positivity
+    by_cases hbr : ((f * (2 - f)) ^ 2 * (if f < 0 then p0 else q0) = 0 ∧ (p0 + q0 - (f * (2 - f)) ^ 2) / 6 ≤ 0)
+    · -- the limiting formulas
+      rw [if_neg (fun h => ((cond_iff _ _).mp h) hbr)]
+      obtain ⟨hq, hr⟩ := hbr
+      have hq' : (if f < 0 then p0 else q0) = 0 := by
+        rcases mul_eq_zero.mp hq with h | h
+        · exact absurd h he4pos.ne'
+        · exact h
+      by_cases hneg : f < 0
+      · rw [if_pos hneg] at hq'
+        simp only [revSing, if_pos hneg]
+        have hR0 : R = 0 := by
+          have : R / a = 0 := by
+            rw [hp0] at hq'; exact pow_eq_zero_iff (two_ne_zero) |>.mp hq'
+          rcases div_eq_zero_iff.mp this with h | h
+          · exact h
+          · exact absurd h ha.ne'
+        have hp : (1 - f) ^ 2 * (Z / a) ^ 2 ≤ (f * (2 - f)) ^ 2 := by rw [← hq0]; linarith
+        have hm := merid_segment_prolate a f Z ha hneg hp
+        rw [hR0]
+        exact ⟨hm, trivial, trivial⟩
+      · rw [if_neg hneg] at hq'
+        simp only [revSing, if_neg hneg]
+        have hf0 : 0 < f := by
+          rcases (not_lt.mp hneg).lt_or_eq with h | h
+          · exact h
+          · exfalso; apply he2; rw [← h]; ring
+        have hZ0 : Z = 0 := by
+          rw [hq0] at hq'
+          rcases mul_eq_zero.mp hq' with h | h
+          · exact absurd h hmpos.ne'
+          · have : Z / a = 0 := pow_eq_zero_iff (two_ne_zero) |>.mp h
+            rcases div_eq_zero_iff.mp this with h | h
+            · exact h
+            · exact absurd h ha.ne'
+        have hp : (R / a) ^ 2 ≤ (f * (2 - f)) ^ 2 := by rw [← hp0]; linarith
+        have hm := merid_disc_oblate a f R ha hf0 hf hR hp
+        rw [hZ0, if_neg (lt_irrefl 0)]
+        exact ⟨hm, trivial, trivial⟩
+    · -- Vermeille's general formulas
+      rw [if_pos ((cond_iff _ _).mpr hbr), vermK_real]
+      have hpos : R ≠ 0 ∨ Z ≠ 0 := by
+        by_contra hc
+        obtain ⟨h1, h2⟩ := not_or.mp hc
+        have h1 := not_not.mp h1
+        have h2 := not_not.mp h2
+        apply hbr
+        have hp00 : p0 = 0 := by rw [hp0, h1]; simp
+        have hq00 : q0 = 0 := by rw [hq0, h2]; simp
+        refine ⟨by rw [hp00, hq00]; simp, ?_⟩
+        rw [hp00, hq00]; linarith
+      by_cases hneg : f < 0
+      · simp only [if_pos hneg, decide_eq_true hneg, if_true, revGeneral]
+        rw [if_pos hneg] at hbr
+        have hbr' : ¬ ((f * (2 - f)) ^ 2 * p0 = 0 ∧ (q0 + p0 - (f * (2 - f)) ^ 2) / 6 ≤ 0) := by
+          rw [add_comm q0 p0]; exact hbr
+        obtain ⟨hk, hquart⟩ := vermKk_spec (f * (2 - f)) q0 p0 he2 hq0n hp0n hbr'
+        rw [add_comm q0 p0] at hk hquart
+        set k := vermKk (f * (2 - f)) q0 p0 ((p0 + q0 - (f * (2 - f)) ^ 2) / 6) with hkdef
+        have he2neg : f * (2 - f) < 0 := by nlinarith
+        rw [abs_of_neg he2neg] at hquart
+        have hk1 : 0 < k - f * (2 - f) := by linarith
+        have hq : (R / a) ^ 2 / k ^ 2 + (1 - f) ^ 2 * (Z / a) ^ 2 / (k - f * (2 - f)) ^ 2 = 1 := by
+          rw [← hp0, ← hq0]
+          have : k + -(f * (2 - f)) = k - f * (2 - f) := by ring
+          rw [this] at hquart; linarith
+        exact ⟨merid_general a f R Z (k - f * (2 - f)) k ha hR hk1 hk (by ring) hq hpos, trivial, trivial⟩
+      · have hf0 : 0 < f := by
+          rcases (not_lt.mp hneg).lt_or_eq with h | h
+          · exact h
+          · exfalso; apply he2; rw [← h]; ring
+        simp only [if_neg hneg, decide_eq_false hneg, Bool.false_eq_true, if_false, revGeneral]
+        rw [if_neg hneg] at hbr
+        obtain ⟨hk, hquart⟩ := vermKk_spec (f * (2 - f)) p0 q0 he2 hp0n hq0n hbr
+        set k := vermKk (f * (2 - f)) p0 q0 ((p0 + q0 - (f * (2 - f)) ^ 2) / 6) with hkdef
+        have he2pos : 0 < f * (2 - f) := by nlinarith
+        rw [abs_of_pos he2pos] at hquart
+        have hk2 : 0 < k + f * (2 - f) := by linarith
+        have hq : (R / a) ^ 2 / (k + f * (2 - f)) ^ 2 + (1 - f) ^ 2 * (Z / a) ^ 2 / k ^ 2 = 1 := by
+          rw [← hp0, ← hq0]; exact hquart
+        exact ⟨merid_general a f R Z k (k + f * (2 - f)) ha hR hk hk2 rfl hq hpos, trivial, trivial⟩
+
+/-- the far-field branch (`|P| > maxrad ≥ 0`): geocentric direction and `h = |P|` -/
+theorem reverse_far_facts (a f maxrad X Y Z : ℝ) (hmr : 0 ≤ maxrad)
+    (hmax : maxrad < Real.sqrt (Real.sqrt (X ^ 2 + Y ^ 2) ^ 2 + Z ^ 2)) :
+    let rv := reverse (⟨a, f⟩ : Ell ℝ) maxrad X Y Z
+    rv.sphi ^ 2 + rv.cphi ^ 2 = 1 ∧ 0 ≤ rv.cphi ∧ rv.slam ^ 2 + rv.clam ^ 2 = 1 ∧
+    rv.h = Real.sqrt (X ^ 2 + Y ^ 2 + Z ^ 2) ∧
+    rv.h * (rv.cphi * rv.clam) = X ∧ rv.h * (rv.cphi * rv.slam) = Y ∧ rv.h * rv.sphi = Z := by
+  intro rv
+  have hrv : rv = revFar X Y Z := by
+    show reverse (⟨a, f⟩ : Ell ℝ) maxrad X Y Z = _
+    rw [reverse_real]; simp only []; rw [if_pos hmax]
+  rw [hrv]
+  simp only [revFar]
+  obtain ⟨hu, hcx, hcy⟩ := lon_part (X / 2) (Y / 2)
+  set R' := Real.sqrt ((X / 2) ^ 2 + (Y / 2) ^ 2) with hR'
+  have hR'0 : 0 ≤ R' := Real.sqrt_nonneg _
+  have hR'2 : R' ^ 2 = (X / 2) ^ 2 + (Y / 2) ^ 2 := Real.sq_sqrt (by positivity)
+  have hin : Real.sqrt (X ^ 2 + Y ^ 2) ^ 2 + Z ^ 2 = X ^ 2 + Y ^ 2 + Z ^ 2 := by
+    rw [Real.sq_sqrt (by positivity)]
+  rw [hin] at hmax ⊢
+  set h0 := Real.sqrt (X ^ 2 + Y ^ 2 + Z ^ 2) with hh0
+  have hh0pos : 0 < h0 := lt_of_le_of_lt hmr hmax
+  have hh02 : h0 ^ 2 = X ^ 2 + Y ^ 2 + Z ^ 2 := Real.sq_sqrt (by positivity)
+  have hHeq : Real.sqrt ((Z / 2) ^ 2 + R' ^ 2) = h0 / 2 := by
+    have : (Z / 2) ^ 2 + R' ^ 2 = (h0 / 2) ^ 2 := by rw [hR'2, div_pow h0, hh02]; ring
+    rw [this, Real.sqrt_sq (by positivity)]
+  rw [hHeq]
+  set sl := (if R' = 0 then 0 else Y / 2 / R') with hsl
+  set cl := (if R' = 0 then 1 else X / 2 / R') with hcl
+  refine ⟨?_, by positivity, hu, rfl, ?_, ?_, ?_⟩
+  · rw [div_pow (Z / 2), div_pow R', ← add_div, hR'2, div_pow h0, hh02]
+    have : X ^ 2 + Y ^ 2 + Z ^ 2 ≠ 0 := by rw [← hh02]; positivity
+    field_simp; ring
+  · have : h0 * (R' / (h0 / 2) * cl) = 2 * (R' * cl) := by field_simp
+    rw [this, hcx]; ring
+  · have : h0 * (R' / (h0 / 2) * sl) = 2 * (R' * sl) := by field_simp
+    rw [this, hcy]; ring
+  · field_simp
+
 end GeoVerif.GeocentricProofs
